@@ -6,7 +6,7 @@ From PyGql Require Import Valid.ValidOverlap Spec.ValidSpec Proofs.ValidClosePro
      Proofs.ValidGraphProofs Proofs.ValidVarProofs Proofs.ValidPermProofs
      Proofs.ValidUnusedProofs Proofs.ValidSelPermProofs Proofs.ValidUniqueProofs
      Spec.ValidValueSpec Proofs.ValidValueProofs Spec.ValidLocalSpec Proofs.ValidLocalProofs
-     Proofs.ValidVerdictProofs Proofs.ValidPermAllProofs Proofs.ValidSelPermAllProofs.
+     Proofs.ValidVerdictProofs Proofs.ValidPermAllProofs Proofs.ValidSelPermAllProofs Proofs.ValidRenameProofs.
 From Coq Require Import Permutation.
 
 (* The closure iteration (repaired _flatten_fragments, and the reachable set
@@ -180,6 +180,24 @@ Theorem C06_perm_selections_arguments : forall fuel s d d',
   (validate_rules fuel s d rules_with_spec = Ok [] <-> validate_rules fuel s d' rules_with_spec = Ok []).
 Proof. exact perm_selections_arguments_all. Qed.
 Print Assumptions C06_perm_selections_arguments.
+
+(* Consistent renaming: fragment names through an injective [rho] (definitions
+   and spreads alike), variable names through an injective [sigma] (definitions
+   and uses alike), aliases arbitrarily ([ren_doc]): the graph / set rules keep
+   their verdict. The other rules are covered by the metamorphic `rename`
+   variants of the correspondence only. *)
+Theorem C06_rename_partial : forall rho sigma : str -> str,
+  (forall a b, rho a = rho b -> a = b) -> (forall a b, sigma a = sigma b -> a = b) ->
+  forall s d d',
+  ren_doc rho sigma d d' -> NoDup (frag_names d) -> NoDup (op_key_list d) ->
+  (r14_no_fragment_cycles s d = Ok [] <-> r14_no_fragment_cycles s d' = Ok []) /\
+  (r16_no_undefined_variables s d = Ok [] <-> r16_no_undefined_variables s d' = Ok []) /\
+  (r17_no_unused_variables s d = Ok [] <-> r17_no_unused_variables s d' = Ok []) /\
+  (r11_known_fragment_names s d = [] <-> r11_known_fragment_names s d' = []) /\
+  (r14_no_fragment_cycles s d = Ok [] ->
+   (r12_no_unused_fragments s d = [] <-> r12_no_unused_fragments s d' = [])).
+Proof. exact rename_graph_rules. Qed.
+Print Assumptions C06_rename_partial.
 
 (* Full statement: the whole verdict is invariant under permutation of the
    definitions. *)
